@@ -155,6 +155,8 @@ def main(ck: Check):
             buff["ignored_defence"] = Fraction(rng.randint(0, 240), 8)
             la, fa = Fraction(rng.randint(0, 120), 100), Fraction(rng.randint(50, 150), 100)
             dmg, hit = Fraction(rng.randint(0, 8000), 8), Fraction(rng.randint(0, 15))
+            if i % 3 == 0:       # totals of every magnitude (the model has no ceiling; neither may the code)
+                dmg, hit = dmg * 10 ** rng.choice([2, 4, 6]), hit * 10 ** rng.choice([0, 2, 3])
             for tag in ([Tag.DAMAGE, Tag.DOT] if i % 4 else [Tag.DAMAGE, Tag.DOT, Tag.MOB]):
                 calc = DamageCalculator(character_spec=S, damage_logic=logic, armor=armor,
                                         level_advantage=float(la), force_advantage=float(fa))
